@@ -5,23 +5,26 @@ import (
 	rt "github.com/ozontech/seq-db/verifrt"
 )
 
-const vEpoch = 1_700_000_000_000 // ms; all instants lie within 2^WBITS ms after it
+const vEpoch = 1_700_000_000_000 // ms; all instants lie within 2^WBITS ms after it (documents within 2^DOCWBITS, the creation time within CBASE + 2^CWBITS)
 
-func vInstant() uint64 {
+// vInstant: an arbitrary instant in [vEpoch+base, vEpoch+base+2^wbits).
+func vInstant(base uint64, wbits int) uint64 {
 	x := rt.NondetU32()
-	rt.Assume(x < uint32(1)<<uint(rt.Param("WBITS")))
-	return vEpoch + uint64(x)
+	rt.Assume(x < uint32(1)<<uint(wbits))
+	return vEpoch + base + uint64(x)
 }
 
 // vInstantSliced is vInstant with the window cut into 2^SLICEBITS explicit slices (one Choose
 // each): the same set of instants, explored as independent jobs.
-func vInstantSliced() uint64 {
+func vInstantSliced(base uint64, wbits int) uint64 {
 	x := rt.NondetU32()
-	w, sb := uint(rt.Param("WBITS")), uint(rt.Param("SLICEBITS"))
+	w, sb := uint(wbits), uint(rt.Param("SLICEBITS"))
 	rt.Assume(x < uint32(1)<<w)
-	j := rt.Choose(1 << sb)
-	rt.Assume(x>>(w-sb) == uint32(j))
-	return vEpoch + uint64(x)
+	if sb > 0 {
+		j := rt.Choose(1 << sb)
+		rt.Assume(x>>(w-sb) == uint32(j))
+	}
+	return vEpoch + base + uint64(x)
 }
 
 // VerifDistribution: the minute-level occupancy map never hides a document: if a document of
@@ -32,18 +35,18 @@ func VerifDistribution() {
 	info := &Info{Path: "f", From: ^seq.MID(0), To: 0}
 	ids := make([]seq.ID, n)
 	for i := range ids {
-		ids[i] = seq.ID{MID: seq.MID(vInstantSliced()), RID: seq.RID(i)}
+		ids[i] = seq.ID{MID: seq.MID(vInstantSliced(0, rt.Param("DOCWBITS"))), RID: seq.RID(i)}
 		info.From = min(info.From, ids[i].MID)
 		info.To = max(info.To, ids[i].MID)
 	}
 	info.DocsTotal = uint32(n)
-	info.CreationTime = vInstantSliced()
+	info.CreationTime = vInstantSliced(uint64(rt.Param("CBASE")), rt.Param("CWBITS"))
 	info.BuildDistribution(ids)
 	rt.Reach("built")
 	if info.Distribution != nil {
 		rt.Reach("with-map")
 	}
-	from, to := seq.MID(vInstant()), seq.MID(vInstant())
+	from, to := seq.MID(vInstant(0, rt.Param("WBITS"))), seq.MID(vInstant(0, rt.Param("WBITS")))
 	hit := false
 	for _, id := range ids {
 		hit = rt.Or(hit, rt.And(from <= id.MID, id.MID <= to))
